@@ -332,7 +332,7 @@ func (fc *fnCtx) instr(in ssa.Instruction) {
 			}
 		}
 	case *ssa.Panic:
-		c := g.w.contractOf(fc.fn)
+		c := g.topContract(fc.fn)
 		if c != nil && c.panicsWhen != "" && fc.parent == nil {
 			f, err := fc.specCtxAt(nil, fc.curH).boolExpr(c.panicsWhen)
 			if err != nil {
